@@ -373,6 +373,10 @@ fn run_work(w: &Work, seed: u64) -> Out {
             for (k, oob) in [("index=count", n), ("index=count+1", n + 1), ("index+count", idx + n), ("index+2^k", idx + n.next_power_of_two() * 2), ("index=max", usize::MAX), ("index=max-1", usize::MAX - 1)] {
                 negs.push((k, Tuple { index: oob, ..base.clone() }));
             }
+            // the same out-of-range indices without any proof (the proof-less playback only halves the index)
+            for (k, oob) in [("index=count,no-proof", n), ("index=count+1,no-proof", n + 1), ("index=2*count,no-proof", 2 * n)] {
+                negs.push((k, Tuple { index: oob, proof: None, ..base.clone() }));
+            }
             if !want.is_empty() {
                 negs.push(("proof-none", Tuple { proof: None, ..base.clone() }));
                 negs.push(("proof-emptied", Tuple { proof: Some(vec![]), ..base.clone() }));
